@@ -10,6 +10,11 @@ answer `X = arange(N)`, cross-checked with `state_vector`), and `lbx/ubx` re-ind
 Oracle: the property re-stated in plain numpy on the real outputs (bounds per named entry, pins,
 coverage of the decision vector), plus real IPOPT solves whose `extract_results()` must stay
 inside the user's bounds.
+Source-to-Lean translation (harness/translate_c05.py, regenerated on every run, obligations of this check):
+Gen/BoundsKernel.lean (per-variable bound / seed kernels) and Gen/LayoutPins.lean (index allocation of
+discretize_states / discretize_control(s), the merge of the index tables, the history-pin and
+initial-derivative loops and the initial-derivative nominals of transcribe()), proved equal to the
+reference definitions Model/C05Kernel.lean / Model/C05Layout.lean and through them to the model.
 """
 import bisect
 import copy
@@ -20,7 +25,7 @@ import numpy as np
 
 from . import c05_synth as S
 from .common import fr, quiet_fd, same
-from .translate_c05 import gen_bounds_kernel
+from .translate_c05 import gen_bounds_kernel, gen_layout_pins
 
 NAN = float("nan")
 INF = float("inf")
@@ -236,6 +241,46 @@ def gen_instance(rng, big=False, malformed=False, solvable=False):
     return inst
 
 
+def add_aliases(rng, inst, solvable=False):
+    """key the bounds() entries of some variables by an alias (plain or negated) and force the value
+    coincidences that matter there: sides that are exactly 0 / -0.0 / ±inf, zero entries inside vectors and
+    Timeseries.  `v["lo"]`, `v["hi"]` stay the bounds of the variable itself (what the property is judged
+    against); the entry written into bounds() is the pair in the alias's coordinates (S.user_pair)."""
+    V = inst["vars"]
+    chosen = [v for v in V if rng.random() < 0.6] or [rng.choice(V)]
+    inst["aliases"] = []
+    kinds = inst.get("_kinds", {})
+    for v in chosen:
+        sign = -1 if rng.random() < 0.7 else 1
+        nm = ("neg_" if sign < 0 else "al_") + v["name"]
+        inst["aliases"].append(dict(name=nm, of=v["name"], sign=sign))
+        v["bkey"] = dict(name=nm, sign=sign)
+        v["nokey"] = False
+        for sk, sg in (("lo", -1), ("hi", +1)):
+            sd = v[sk]
+            r = rng.random()
+            if sd is None or isinstance(sd, float):
+                if solvable and v["kind"] in ("alg", "control"):
+                    pass   # stays free (the instance must remain feasible)
+                elif r < 0.4:
+                    sd = rng.choice([0.0, -0.0, 0.0])
+                elif r < 0.5:
+                    sd = sg * INF
+            elif "vec" in sd:
+                if r < 0.5:
+                    sd = {"vec": [0.0 if rng.random() < 0.6 else x for x in sd["vec"]]}
+            elif r < 0.5:
+                sd = {"t": sd["t"], "v": [[0.0 if rng.random() < 0.4 else x for x in row] if isinstance(row, list)
+                                          else (0.0 if rng.random() < 0.4 else row) for row in sd["v"]]}
+            if sd is None and sign < 0:
+                # a None side under a negated alias raises TypeError in AliasDict.__setitem__ (-None) on the
+                # unchanged tree (reported to the coordinator): the main stream says "unbounded" with ∓inf there
+                sd = sg * INF
+            v[sk] = sd
+        kinds[v["name"]] = list(kinds.get(v["name"], ())) + ["alias%+d" % sign]
+    return inst
+
+
 # ---------------------------------------------------------------------------------------------
 # wire form for the Lean model
 
@@ -255,10 +300,15 @@ def wire_side(s):
 
 def wire_blk(v, t0):
     nom = v["nom"]
-    return dict(size=v["size"], times=[fr(t) for t in (v["times"] if v["kind"] != "extra" else [t0])],
+    d = dict(size=v["size"], times=[fr(t) for t in (v["times"] if v["kind"] != "extra" else [t0])],
                 scalarT=(v["kind"] == "extra"),
                 nom=({"vec": [fr(x) for x in nom]} if isinstance(nom, list) else {"sc": fr(nom)}),
                 lo=wire_side(v["lo"]), hi=wire_side(v["hi"]), mode=v["mode"])
+    if v.get("bkey"):
+        # the pair as the user gave it under the alias + the alias sign: the model applies `aliasSides`
+        ulo, uhi = S.user_pair(v)
+        d["lo"], d["hi"], d["negAlias"] = wire_side(ulo), wire_side(uhi), v["bkey"]["sign"] < 0
+    return d
 
 
 def wire_inst(inst):
@@ -660,10 +710,12 @@ def stream_interp(c, n):
 # real solves: returned trajectories stay inside the user's boxes
 
 
-def stream_solve(c, n):
+def stream_solve(c, n, alias=False):
     rng = c.rng
     for _ in range(n):
         inst = gen_instance(rng, solvable=True)
+        if alias:
+            add_aliases(rng, inst, solvable=True)
         # make every box non-empty and finite objective targets outside it
         V = inst["vars"]
         t0 = inst["times"][0]
@@ -710,11 +762,11 @@ def stream_solve(c, n):
             c.hit("solve/raise")
             c.fail("solvable instance raised %s" % type(e).__name__, case, str(e)[:200])
             continue
-        c.count(("solve", inst["E"], len(inst["times"]), ok))
+        c.count(("solve" + ("-alias" if alias else ""), inst["E"], len(inst["times"]), ok))
         if not ok:
             c.hit("solve/not-converged")
             continue
-        c.hit("solve/ok")
+        c.hit("solve-alias/ok" if alias else "solve/ok")
         for m in range(inst["E"]):
             res = p.extract_results(m)
             for v in V:
@@ -888,6 +940,17 @@ CORPUS = [
 ]
 
 
+def probe_none_under_negated_alias(c):
+    """input class kept out of the main alias stream: a `None` side in a pair keyed by a negated alias
+    (recorded in the distribution, not judged: `-None` raises TypeError in AliasDict.__setitem__)"""
+    inst = dict(times=[0.0, 1.0, 2.0], E=1, theta=1.0, hist=[{}],
+                vars=[dict(name="x0", kind="state", size=1, times=[0.0, 1.0, 2.0], nom=1.0, mode=0, nokey=False,
+                           lo=-1.0, hi=None, bkey=dict(name="neg_x0", sign=-1))],
+                aliases=[dict(name="neg_x0", of="x0", sign=-1)])
+    r = run_real(inst)
+    c.hit("alias/none-side-under-negated-alias: " + ("raises " + r[1].split(":")[0] if r[0] == "raise" else "accepted"))
+
+
 def run(c):
     c.rule = (
         "random synthetic problems (1-2 states, 0-2 algebraics / controls (own coarser stamps) / path variables "
@@ -896,7 +959,10 @@ def run(c):
         "on the variable's stamps / on other stamps (fills) / with ±inf entries, 1-D and 2-D; nominals 1e-3..1e4 "
         "scalar and per component; histories absent / one point (at, before t0) / two / several / NaN at t0 / "
         "NaN at t-1 / equal between members; interpolation modes 0-2; a malformed stream (shape mismatches, "
-        "history not ending at t0).  distinct = (stream, E, #stamps, multiset of (kind, size, nominal kind, "
+        "history not ending at t0); an alias stream: the same instances with the bounds() entries of some variables "
+        "keyed by a plain / negated alias (synthetic alias relation), sides forced to 0 / -0.0 / ±inf and zero entries "
+        "inside vectors and Timeseries, judged in the variable's own coordinates ((lo, hi) under a negated alias "
+        "means (-hi, -lo)), with real IPOPT solves.  distinct = (stream, E, #stamps, multiset of (kind, size, nominal kind, "
         "bound kinds), history kinds, outcome)"
     )
     c.assumptions = [
@@ -908,7 +974,8 @@ def run(c):
         "io_mixin bounds are exercised by C14 (known candidate F5 belongs there)",
         "nominals are positive; NaN-valued bounds and custom `discretize_control(s)` overrides are outside the model",
     ]
-    c.prove(extra=gen_bounds_kernel(c))  # + the per-variable bound / seed kernels translated from the source
+    # + the per-variable bound / seed kernels, the index allocation and the history-pin block translated from the source
+    c.prove(extra=gen_bounds_kernel(c) + gen_layout_pins(c))
     rng = c.rng
     # corpus first
     insts = [copy.deepcopy(x) for x in CORPUS]
@@ -921,6 +988,10 @@ def run(c):
     for _ in range(n_mal):
         insts.append(gen_instance(rng, big=False, malformed=True))
         tags.append("malformed")
+    # bounds() entries keyed by aliases of the variables (plain and negated), judged in the variable's own coordinates
+    for _ in range(c.n(80, 600)):
+        insts.append(add_aliases(rng, gen_instance(rng, big=c.big)))
+        tags.append("alias")
     outs = c.model([wire_inst(i) for i in insts])
     c.programs = len(insts)
     for k, inst in enumerate(insts):
@@ -935,13 +1006,16 @@ def run(c):
             c.hit("hist/" + hk)
     stream_interp(c, c.n(600, 8000))
     stream_solve(c, c.n(10, 60))
+    stream_solve(c, c.n(5, 30), alias=True)
+    probe_none_under_negated_alias(c)
     stream_sources(c, c.n(3, 25))
     c.notes.append("random streams are samples; the unbounded claim is carried by the theorems; the oracle "
                    "re-states the property on the real lbx/ubx of every generated instance")
 
 
 def replay(c, rp):
-    c.prove(extra=gen_bounds_kernel(c))  # + the per-variable bound / seed kernels translated from the source
+    # + the per-variable bound / seed kernels, the index allocation and the history-pin block translated from the source
+    c.prove(extra=gen_bounds_kernel(c) + gen_layout_pins(c))
     items = rp.get("failures", []) + rp.get("correspondence_disagreements", [])
     insts = [f["case"] for f in items if isinstance(f.get("case"), dict) and "vars" in f["case"]]
     for i in insts:  # replay files store floats as JSON (inf/nan as strings)
